@@ -270,6 +270,18 @@ pub fn value_for(stamp: u64, key_idx: u8, class: u8, cfg: &Cfg) -> Vec<u8> {
         2 => (cfg.memtable.min(1 << 20)) + 1000,
         _ => 8,
     };
+    if class == 3 {
+        // 3000 incompressible bytes: a table block of its own, 1.5 filter ranges (2 KiB) long
+        let mut x: u64 = 0x9E37_79B9_7F4A_7C15 ^ (stamp << 8) ^ key_idx as u64;
+        let mut v = base.clone();
+        while v.len() < 3000 {
+            x ^= x << 13;
+            x ^= x >> 7;
+            x ^= x << 17;
+            v.push((x >> 24) as u8);
+        }
+        return v;
+    }
     let mut v = Vec::with_capacity(len);
     let mut i = 0usize;
     while v.len() < len {
